@@ -29,8 +29,28 @@ section semiring
 variable {R : Type} [CommSemiring R]
 
 theorem step_get (k : Nat) (M : Mat R) (sp : Vec R) (e : Nat → R) (j : Nat) :
-    (step k M sp e).get j = (∑ i ∈ range k, M j i * sp.get i) * e j := by
+    (step k M sp e).get j = (∑ i ∈ range k, sp.get i * M i j) * e j := by
   simp [step, sumOver_eq]
+
+/-- the pre-fix loop body is the present one run with the transposed matrix -/
+theorem stepOld_eq (k : Nat) (M : Mat R) (sp : Vec R) (e : Nat → R) :
+    stepOld k M sp e = step k (transpose M) sp e := by
+  unfold stepOld step transpose
+  congr 1
+  funext j
+  congr 2
+  funext i
+  exact mul_comm _ _
+
+theorem forwardOldGo_eq (k : Nat) (M : Mat R) :
+    ∀ (es : List (Nat → R)) (sp : Vec R), forwardOldGo k M es sp = forwardGo k (transpose M) es sp
+  | [], _ => rfl
+  | e :: es, sp => by rw [forwardOldGo, forwardGo, stepOld_eq, forwardOldGo_eq k M es]
+
+theorem forwardOld_eq (k : Nat) (M : Mat R) (init : Nat → R) (es : List (Nat → R)) :
+    forwardOld k M init es = forward k (transpose M) init es := by
+  unfold forwardOld forward
+  rw [forwardOldGo_eq]
 
 /-- sum over the paths of length `n+1`, split by the first state -/
 theorem sum_paths_succ (k n : Nat) (f : List Nat → R) :
@@ -44,13 +64,13 @@ theorem sum_paths_succ (k n : Nat) (f : List Nat → R) :
 theorem forwardGo_sum (k : Nat) (M : Mat R) :
     ∀ (es : List (Nat → R)) (sp : Vec R),
       sumOver k (forwardGo k M es sp).get
-        = ∑ p ∈ range k, sp.get p * ((paths k es.length).map (chainW (transpose M) p es)).sum
+        = ∑ p ∈ range k, sp.get p * ((paths k es.length).map (chainW M p es)).sum
   | [], sp => by simp [forwardGo, paths, chainW, sumOver_eq]
   | e :: es, sp => by
     rw [forwardGo, forwardGo_sum k M es]
     simp only [List.length_cons]
-    have hr : ∀ p, ((paths k (es.length + 1)).map (chainW (transpose M) p (e :: es))).sum
-        = ∑ z ∈ range k, (M z p * e z) * ((paths k es.length).map (chainW (transpose M) z es)).sum := by
+    have hr : ∀ p, ((paths k (es.length + 1)).map (chainW M p (e :: es))).sum
+        = ∑ z ∈ range k, (M p z * e z) * ((paths k es.length).map (chainW M z es)).sum := by
       intro p
       rw [sum_paths_succ]
       refine Finset.sum_congr rfl fun z _ => ?_
@@ -62,9 +82,9 @@ theorem forwardGo_sum (k : Nat) (M : Mat R) :
     ring
 
 /-- the loop of `log_dot_reduce`, for ANY matrix, initial vector and emissions: a sum over all paths with a
-state `z_{-1}` in front of the first site, the matrix entered as `M[z_t, z_{t-1}]` -/
+state `z_{-1}` in front of the first site, the matrix entered as `M[z_{t-1}, z_t]` -/
 theorem forward_eq_pre (k : Nat) (M : Mat R) (init : Nat → R) (es : List (Nat → R)) :
-    forward k M init es = bruteHmmPre k init (transpose M) es := by
+    forward k M init es = bruteHmmPre k init M es := by
   rw [forward, forwardGo_sum, bruteHmmPre, sum_paths_succ]
   refine Finset.sum_congr rfl fun p _ => ?_
   rw [← List.sum_map_mul_left]
